@@ -16,7 +16,7 @@ seed(6, "wipe length sizeof(Skinny128CTRCtx_t)-like shorter type in the vec256 c
      ("src/skinny128-ctr-vec256.c", "skinny_cleanse(ctx, sizeof(Skinny128CTRVec256Ctx_t));", "skinny_cleanse(ctx, sizeof(Skinny128TweakedKey_t));"))
 seed(7, "volatile dropped in skinny_cleanse", ["C17.R3", "C17.R1"],
      ("src/skinny-internal.h", "uint8_t volatile *p = (uint8_t volatile *)ptr;", "uint8_t *p = (uint8_t *)ptr;"))
-seed(8, "base_ptr read after the wipe", ["C17.R4", "C15.R2"],
+seed(8, "base_ptr read after the wipe", ["C17.R4"],
      (V128, "        void *base_ptr = ctx->base_ptr;\n        skinny_cleanse(ctx, sizeof(Skinny128CTRVec128Ctx_t));\n        free(base_ptr);",
       "        skinny_cleanse(ctx, sizeof(Skinny128CTRVec128Ctx_t));\n        free(ctx->base_ptr);"))
 seed(9, "free(ctx) instead of free(base_ptr) in mantis_ctr_vec128_cleanup", ["C15.R2"],
@@ -100,7 +100,7 @@ seed(62, "vector S-box lane extracted with a data-dependent index in the vec128 
      ("src/skinny128-ctr-vec128.c", "    /* Read the rows of all four counter blocks into memory */\n    row0 = input[0];",
       "    /* Read the rows of all four counter blocks into memory */\n    row0 = input[0];\n    row0[0] ^= 0 * row0[input[1][0] & 3];"))
 
-seed(52, "D1 re-introduced in skinny128_set_tk2: uint16_t word and no zero fill", ["C10.R4", "C11.R1"],
+seed(52, "D1 (narrowing half) re-introduced in skinny128_set_tk2: uint16_t word", ["C10.R4"],
      ("src/skinny128-cipher.c", "static void skinny128_set_tk2\n    (Skinny128Key_t *ks, const void *key, unsigned key_size)\n{\n    Skinny128Cells_t tk;\n    unsigned index;\n    uint32_t word;",
       "static void skinny128_set_tk2\n    (Skinny128Key_t *ks, const void *key, unsigned key_size)\n{\n    Skinny128Cells_t tk;\n    unsigned index;\n    uint16_t word;"))
 seed(63, "zero fill of the short tweakey removed in skinny64_set_tk3", ["C10.R4", "C11.R1"],
@@ -215,7 +215,7 @@ seed(30, "first output word of skinny128_ecb_encrypt stored before the last inpu
      ("src/skinny128-cipher.c", "    state.row[2] = READ_WORD32(input, 8);\n    state.row[3] = READ_WORD32(input, 12);\n\n    /* Perform all encryption rounds */", "    state.row[2] = READ_WORD32(input, 8);\n    WRITE_WORD32(output, 0, state.row[0]);\n    state.row[3] = READ_WORD32(input, 12);\n\n    /* Perform all encryption rounds */"))
 seed(31, "memcpy(block + B - size, counter, B) in skinny128 vec128 set_counter (over-read and overflow)", ["C09.R2"],
      (V128, "        memcpy(block + SKINNY128_BLOCK_SIZE - size, counter, size);", "        memcpy(block + SKINNY128_BLOCK_SIZE - size, counter, SKINNY128_BLOCK_SIZE);"))
-seed(32, "skinny_calloc -> calloc in skinny128_ctr_vec256_init (32-byte aligned context from a 16-byte allocator)", ["C09.R7", "C15.R2"],
+seed(32, "skinny_calloc -> calloc in skinny128_ctr_vec256_init (32-byte aligned context from a 16-byte allocator)", ["C09.R7"],
      ("src/skinny128-ctr-vec256.c", "    if ((ctx = skinny_calloc(sizeof(Skinny128CTRVec256Ctx_t), &base_ptr)) == NULL)\n        return 0;", "    if ((ctx = calloc(1, sizeof(Skinny128CTRVec256Ctx_t))) == NULL)\n        return 0;\n    base_ptr = ctx;"))
 seed(94, "partial key loader reads the 16-bit word without the (index + 2) <= key_size guard (skinny64_set_tk2)", ["C09.R2"],
      ("src/skinny64-cipher.c", "            if ((index + 2) <= key_size) {\n                word = READ_WORD16(key, index);\n            } else {\n                word = READ_BYTE(key, index);\n            }\n            tk.row[index / 2] = word;\n        }\n    }\n\n    /* Generate the key schedule words for all rounds */\n    for (index = 0; index < ks->rounds; ++index) {\n        /* Determine the subkey to use at this point in the key schedule */\n        ks->schedule[index].lrow ^= tk.lrow[0];\n\n        /* Permute TK2 for the next round */",
